@@ -12,7 +12,7 @@
    Keys are in HEX encoding (one symbol per nibble plus the terminator 16, encoding.go:keybytesToHex),
    exactly what Trie.insert / Trie.delete receive.  A Go panic (invalid node type, index out of
    range) is the error value None. *)
-From Coq Require Import List NArith Bool Arith.
+From Coq Require Import List NArith ZArith Bool Arith Uint63.
 From GQ Require Import Lib.Key.
 Import ListNotations.
 
@@ -372,23 +372,65 @@ Fixpoint crun (t : node) (ops : list cop) : bool :=
   | CDump d :: r => node_eqb t d && crun t r
   end.
 
+(* Case files carry byte strings packed into primitive 63-bit integers (7 bytes per word,
+   big endian, first word = length): Coq parses those an order of magnitude faster than lists
+   of N numerals.  [unpack] is the inverse of the harness' pack(). *)
+Definition w2n (w : int) : N := Z.to_N (Uint63.to_Z w).
+
+Definition word_bytes (w : int) : list N :=
+  let n := w2n w in
+  [ (n / 281474976710656) mod 256; (n / 1099511627776) mod 256; (n / 4294967296) mod 256;
+    (n / 16777216) mod 256; (n / 65536) mod 256; (n / 256) mod 256; n mod 256 ]%N.
+
+Definition unpack (p : list int) : list N :=
+  match p with
+  | [] => []
+  | len :: ws => firstn (N.to_nat (w2n len)) (flat_map word_bytes ws)
+  end.
+
+Inductive dnode :=
+| DN
+| DV (v : list int)
+| DS (k : list int) (c : dnode)
+| DF (cs : list dnode).
+
+Fixpoint undump (d : dnode) : node :=
+  match d with
+  | DN => Nil
+  | DV v => Val (unpack v)
+  | DS k c => Short (unpack k) (undump c)
+  | DF cs => Full (map undump cs)
+  end.
+
+Inductive rcop :=
+| RUpd (k v : list int)
+| RDel (k : list int)
+| RCommit
+| RGet (k v : list int)
+| RDump (d : dnode).
+
+Definition decode_op (o : rcop) : cop :=
+  match o with
+  | RUpd k v => CUpd (unpack k) (unpack v)
+  | RDel k => CDel (unpack k)
+  | RCommit => CCommit
+  | RGet k v => CGet (unpack k) (unpack v)
+  | RDump d => CDump (undump d)
+  end.
+
 (* kinds of cases: a trie history, or an observed DeriveSha key order *)
 Inductive cbody :=
-| BTrie (ops : list cop)
-| BOrder (n : N) (keys : list (list N)).
+| BTrie (ops : list rcop)
+| BOrder (n : N) (keys : list int).   (* the keys, each preceded by its length, concatenated and packed *)
 
-Fixpoint keys_eqb (a b : list (list N)) : bool :=
-  match a, b with
-  | [], [] => true
-  | x :: a', y :: b' => keqb x y && keys_eqb a' b'
-  | _, _ => false
-  end.
+Definition frame_keys (ks : list (list N)) : list N :=
+  flat_map (fun k => N.of_nat (length k) :: k) ks.
 
 Definition case := (N * cbody)%type.
 Definition case_ok (c : case) : bool :=
   match snd c with
-  | BTrie ops => crun Nil ops
-  | BOrder n keys => keys_eqb (map rlp_uint (derive_order n)) keys
+  | BTrie ops => crun Nil (map decode_op ops)
+  | BOrder n keys => keqb (frame_keys (map rlp_uint (derive_order n))) (unpack keys)
   end.
 Definition mismatches (cs : list case) : list N :=
   map fst (filter (fun c => negb (case_ok c)) cs).
